@@ -1816,13 +1816,13 @@ def _delimit_node(self: fst.FST, whole: bool = True, delims: str = '()') -> None
                 end_from_col = m.start(0)
 
     if is_last_line_comment:
-        self._put_src(['', delims[1]], end_ln, end_from_col, end_ln, end_to_col, True, False, self)
+        self._put_src(['', delims[1]], end_ln, end_from_col, end_ln, end_to_col, True, True, self)
 
         ast.end_lineno = end_ln + 2  # yes this can change
         ast.end_col_offset = 1  # can't count on this being set by put_src() because end of `whole` could be past end of sequence
 
     else:
-        self._put_src([delims[1]], end_ln, end_from_col, end_ln, end_to_col, True, False, self)
+        self._put_src([delims[1]], end_ln, end_from_col, end_ln, end_to_col, True, True, self)
 
         ast.end_lineno = end_ln + 1
         ast.end_col_offset = lines[end_ln].c2b(end_from_col + 1)
